@@ -12,6 +12,9 @@ pub mod c08;
 pub mod c09;
 pub mod c10;
 pub mod c11;
+pub mod c14;
+pub mod c15;
+pub mod c16;
 pub mod c23;
 pub mod c28;
 pub mod c29;
@@ -30,6 +33,9 @@ pub fn all() -> Vec<Prop> {
         c09::prop(),
         c10::prop(),
         c11::prop(),
+        c14::prop(),
+        c15::prop(),
+        c16::prop(),
         c23::prop(),
         c28::prop(),
         c29::prop(),
@@ -37,8 +43,9 @@ pub fn all() -> Vec<Prop> {
 }
 
 /// Auxiliary child entry points used by custom stages (`verif aux --prop ID ...`).
-pub fn aux(id: &str, _args: &[String]) -> i32 {
+pub fn aux(id: &str, args: &[String]) -> i32 {
     match id {
+        "C14" => c14::aux(args),
         _ => {
             eprintln!("no aux entry for {}", id);
             4
